@@ -169,6 +169,55 @@ CLAIMS = {
              "(O5) are not under contract yet.",
         note=PYVC_TRUST + "; asyncio.Future/Queue contracts assumed; Packet.append by its C11 contract; bounded in "
              "requests per frame for process_packet"),
+    "C15": dict(
+        engine="pyvc", category="other", design_ref="DESIGN.md section 4 C15",
+        technique="contract-based deductive verification: sidecar contracts on the real source of "
+                  "MailboxLock/ParallelMailboxLock.next_counter, ParallelMailboxLock.__aenter__/__aexit__ (resource "
+                  "invariant of the counter byte, rely/guarantee against assumed lockf and asyncio.Lock contracts), "
+                  "LockFile.__init__ (guarantee towards concurrent openers) and Terminal.mbx_send; lock-held "
+                  "preconditions at every mailbox call site of Terminal",
+        text="next_counter is one step of the cycle 1..7 from the counter the message carries; mbx_send writes that "
+             "counter into the header while the lock is held; entering a ParallelMailboxLock gives exclusive "
+             "ownership of the terminal's counter byte among processes (lockf) and among tasks (asyncio.Lock), "
+             "yields a counter in 0..7 even on a still empty file, and leaving writes the counter back before "
+             "unlocking; the creator of the lock file never overwrites counters stored meanwhile; every mbx_send / "
+             "mbx_recv / next_counter call of Terminal is under `async with self.mbx_lock`. All proved for every "
+             "value and any number of users; interleavings are covered by the ownership argument (assumed lock "
+             "contracts), not enumerated. The no-repeat-no-gap statement over a whole history is the composition "
+             "of these step contracts, not a separately mechanised lemma.",
+        note=PYVC_TRUST + "; POSIX lockf (per-process) and asyncio.Lock contracts assumed; lexical enclosure in "
+             "`async with` decides the call-site obligations (backend ast-dominance); level other because the "
+             "history statement is composed by hand"),
+    "C18": dict(
+        engine="pyvc", category="other", design_ref="DESIGN.md section 4 C18",
+        technique="contract-based deductive verification: sidecar contracts on the real source of "
+                  "SterilePacket.append/append_writer/append_fmmu, EBPFTerminal.allocate, AerotechBase.allocate, "
+                  "EtherCat.get_fmmu_addr and SyncGroupBase.allocate (Packet.append by its C11 contract), VCs from "
+                  "the AST, z3",
+        text="The packet methods and the two terminal allocators are proved for packets of any length against "
+             "contracts over the whole frame layout (what is reserved, exact sizes, everything else kept, frame "
+             "invariant, expected working counts). SyncGroupBase.allocate is proved for groups of 0-1 terminals "
+             "(quick) and all pairs of EBPF/Aerotech terminals (thorough), all sizes, offsets, flags and addressing "
+             "modes symbolic: every region lies in the data window of the datagram that transports it at exactly "
+             "its size, direct regions are the whole window of a datagram addressed to the terminal, FMMU logical "
+             "addresses map to the region, regions never overlap, the group's logical windows stay apart, and a "
+             "group that does not fit is rejected. Bounded in the number of terminals per group.",
+        note=PYVC_TRUST + "; Packet.append by its proved C11 contract; get_fmmu_addr of the single-process master "
+             "only (the lock-file variant belongs to C23); Aerotech declared input size positive"),
+    "C19": dict(
+        engine="pyvc+bpfvc", category="other", design_ref="DESIGN.md section 4 C19",
+        technique="contract-based deductive verification: byte-level little-endian postconditions on the real "
+                  "source of PacketVar.get/set/_start/fmt_addr (pyvc, symbolic positions and frames) and on the "
+                  "bytes of FastSyncGroup.assemble() for a probe device per format and bit (bpfvc, all paths)",
+        text="Python path: for every format B H I Q b h i q and every bit, both sync managers, any position and "
+             "any frame, get returns the little-endian value (or the bit) of exactly the variable's bytes, set "
+             "changes exactly those bytes (that bit) and nothing else, out-of-range values are rejected with the "
+             "frame untouched. Program path: for every format and bit the generated program reads and writes "
+             "exactly those bytes with the same value semantics for all frames, lengths and map contents, and the "
+             "address it uses is the Python start plus the Ethernet header. Bounded in the enumerated positions "
+             "on the program path; float formats are out of the encoder's reach.",
+        note=PYVC_TRUST + "; " + BPFVC_TRUST + "; host little endian; descriptor resolution (ProcessDesc/StructDesc) "
+             "is exercised on the real objects when the probe programs are built, not symbolically"),
 }
 
 NA = {
